@@ -2239,3 +2239,164 @@ def process_and_ack_unit():
 
 
 ALL += [process_one_unit, process_and_ack_unit]
+
+
+# ----------------------------------------------------------------------------- callers of the condition evaluator (C20), split contract (C03)
+def _expr_registry():
+    from pyvc.values import SVal, fresh_val
+
+    reg = run_task_registry()
+
+    def evaluate_expression(I, a, k):
+        """contract of evaluate_expression (C20 totality, bounded stand-in + fix D2): returns some value or raises
+        ExpressionError -- nothing else."""
+        I.st.emit("evaluate_expression", text=a[0])
+        if I.st.choose("expression_error"):
+            T.raise_exc(I, "ExpressionError", "stabilize.expressions")
+        return SVal(fresh_val("expr_result"))
+
+    reg.contracts["stabilize.expressions:evaluate_expression"] = evaluate_expression
+    return reg
+
+
+def _split_post(ctx):
+    """_apply_split_logic (the contract CompleteStage assumes): never raises; the two results partition the downstream
+    list; a non-empty downstream list activates at least one branch; AND-split activates everything."""
+    I = ctx.I
+    if ctx.exc is not None:
+        return [("condition-errors-never-escape", FALSE)]
+    down = ctx.args["downstream_stages"]
+    act, skp = ctx.result.items
+    n = I.ops.list_len(down)
+    j = fresh_int("dj")
+    dj = SElem(down.lid, (j,))
+    I.note_index(dj)
+    in_act, in_skp = I.ops.contains(act, dj), I.ops.contains(skp, dj)
+    rng = z3.And(j >= 0, j < n)
+    st_ = ctx.args["stage"]
+    is_or = I.getattr(st_, "split_type").t == I.enum_member(I.index.find_class("SplitType"), "OR").t
+    return [("partition", z3.Implies(rng, in_act != in_skp)),
+            ("some-branch-activated", z3.Implies(n > 0, I.ops.list_len(act) > 0)),
+            ("and-split-activates-all", z3.Implies(z3.And(rng, z3.Not(is_or)), in_act))]
+
+
+def split_logic_unit():
+    from pyvc.verify import Unit
+    from .common import STATUS_NAMES
+    from .hcommon import make_handler
+
+    return Unit(prop="*", name="L3/CompleteStage._apply_split_logic", func=H + "complete_stage.split_logic:CompleteStagesSplitMixin._apply_split_logic",
+                params=[("stage", ("obj", "StageExecution")), ("downstream_stages", ("list", ("obj", "StageExecution")))],
+                self_type=lambda ctx: make_handler(ctx.I, H + "complete_stage.handler:CompleteStageHandler"),
+                names=STATUS_NAMES, registry=_expr_registry(), replayable=False,
+                obligations=[Obl("C20/expr/callers/_apply_split_logic", _split_post, when="any"), Obl("C03/split/partition", _split_post, when="any"),
+                             Obl("C05/split/some-branch-activated", _split_post, when="any")])
+
+
+def _should_skip_post(ctx):
+    """a malformed stageEnabled condition never crashes the stage start: _should_skip returns a bool and never raises."""
+    if ctx.exc is not None:
+        return [("condition-errors-never-escape", FALSE)]
+    return [("returns", TRUE)]
+
+
+def should_skip_unit():
+    from pyvc.verify import Unit
+    from .common import STATUS_NAMES
+    from .hcommon import make_handler
+
+    return Unit(prop="*", name="L3/StartStage._should_skip", func=H + "start_stage.conditions:StartStageConditionsMixin._should_skip",
+                params=[("stage", ("obj", "StageExecution"))],
+                self_type=lambda ctx: make_handler(ctx.I, H + "start_stage.handler:StartStageHandler"),
+                names=STATUS_NAMES, registry=_expr_registry(), replayable=False,
+                obligations=[Obl("C20/expr/callers/_should_skip", _should_skip_post, when="any")])
+
+
+# ----------------------------------------------------------------------------- reset functions (C15/reset-post, C16 current-iteration)
+def _reset_post(which):
+    def check(ctx):
+        from pyvc.values import VAL
+
+        I = ctx.I
+        if ctx.exc is not None:
+            return [("no-exception", FALSE)]
+        stage = ctx.args["stage"]
+        tasks = I.getattr(stage, "tasks")
+        tarr = I._elem_array(tasks.lid, "status", I.typer.sort_of(("enum", WS)))
+        t0 = z3.Array(f"stage.tasks@{tasks.lid}.status", z3.IntSort(), I.typer.sort_of(("enum", WS)))
+        i = fresh_int("ti")
+        rng = z3.And(i >= 0, i < I.ops.list_len(tasks))
+        s1 = I.getattr(stage, "status").t
+        goals = []
+        if which == "retry":
+            goals.append(("stage-not-started", s1 == status(I, "NOT_STARTED")))
+            goals.append(("all-tasks-not-started", z3.Implies(rng, z3.Select(tarr, i) == status(I, "NOT_STARTED"))))
+            goals.append(("times-cleared", z3.And(I.ops.is_none(I.getattr(stage, "start_time")), I.ops.is_none(I.getattr(stage, "end_time")))))
+            outs = I.getattr(stage, "outputs")
+            orec = I.st.dicts[outs.did]
+            goals.append(("outputs-emptied", z3.BoolVal(orec.kind == "conc" and not orec.items)))
+            ctxd = I.st.dicts[I.getattr(stage, "context").did]
+            h0 = z3.Array("stage.context.has", z3.IntSort(), z3.BoolSort())
+            v0 = z3.Array("stage.context.vals", z3.IntSort(), VAL)
+            k = fresh_int("ck")
+            join_keys = [I.ops.lit(n).t for n in ("_join_fired", "_completed_branches", "_activated_branches")]
+            goals.append(("join-keys-cleared", z3.And(*[z3.Not(z3.Select(ctxd.has, jk)) for jk in join_keys])))
+            goals.append(("rest-of-context-kept", z3.Implies(z3.And(*[k != jk for jk in join_keys]),
+                                                             z3.And(z3.Select(ctxd.has, k) == z3.Select(h0, k),
+                                                                    z3.Implies(z3.Select(h0, k), z3.Select(ctxd.vals, k) == z3.Select(v0, k))))))
+        else:
+            want = {"skipped": "SKIPPED", "succeeded": "SUCCEEDED", "terminal": "TERMINAL"}[which]
+            goals.append(("stage-status", s1 == status(I, want)))
+            if which == "skipped":
+                goals.append(("all-tasks-skipped", z3.Implies(rng, z3.Select(tarr, i) == status(I, "SKIPPED"))))
+            else:
+                goals.append(("running-tasks-finished", z3.Implies(z3.And(rng, z3.Select(t0, i) == status(I, "RUNNING")), z3.Select(tarr, i) == status(I, want))))
+                goals.append(("other-tasks-untouched", z3.Implies(z3.And(rng, z3.Select(t0, i) != status(I, "RUNNING")), z3.Select(tarr, i) == z3.Select(t0, i))))
+        return goals
+    return check
+
+
+def reset_units():
+    from pyvc.verify import Unit
+    from .common import STATUS_NAMES
+
+    RM = H + "jump_to_stage.reset:"
+    out = []
+
+    def touch(ctx):
+        I = ctx.I
+        st_ = ctx.args["stage"]
+        I.getattr(st_, "context")
+        tasks = I.getattr(st_, "tasks")
+        I.elem_getattr(SElem(tasks.lid, (z3.Int("$probe"),)), "status")
+
+    for which, fn, extra in (("retry", "reset_stage_for_retry", []), ("skipped", "reset_stage_to_skipped", [("end_time", ("int",))]),
+                             ("succeeded", "reset_stage_to_succeeded", [("end_time", ("int",))]), ("terminal", "reset_stage_to_terminal", [("end_time", ("int",))])):
+        obls = [Obl(f"C15/reset-post/{fn}", _reset_post(which), when="any")]
+        if which == "retry":
+            obls.append(Obl("C16/current-iteration/reset-clears-outputs", _reset_post(which), when="any"))
+            obls.append(Obl("C04/join-fired/reset-is-the-only-clear", _reset_post(which), when="any"))
+        out.append(Unit(prop="*", name=f"L3/{fn}", func=RM + fn, params=[("stage", ("obj", "StageExecution"))] + extra, names=STATUS_NAMES,
+                        registry=run_task_registry(), replayable=False, setup=touch, obligations=obls))
+    return out
+
+
+ALL += [split_logic_unit, should_skip_unit]
+
+
+def _expand_reset():
+    return reset_units()
+
+
+_old_units_for = units_for
+
+
+def units_for(prop: str):  # noqa: F811
+    out = _old_units_for(prop)
+    for u in reset_units():
+        u.obligations = [o for o in u.obligations if o.name.startswith(prop + "/")]
+        if u.obligations:
+            u.prop = prop
+            u.name = f"{prop}:{u.name}"
+            out.append(u)
+    return out
